@@ -24,6 +24,11 @@ CHECKS = {
    text="Every sequence of open-writer(start, optional preset end incl. adjacent and zero-length) / write+commit(end) / re-commit / close / delete[a,b) / reopen over 2-3 writers on one channel with timestamps from a 4-5 point grid, with and without file rollover and with lazy and immediate index persistence, from the empty database and from a two-domain layout, up to the depth bound. After every step the real pointer list (verif hook) and the iterator enumeration must be sorted, pairwise non-overlapping, inside their files and equal to the model with byte-identical content; an open inside data must fail; a commit that overlaps, moves backwards or is empty must fail with a validation error and leave the index untouched; an accepted commit must satisfy none of those.",
    note="in-memory xfs.MemFS; go1.26.8 toolchain; file rollover is observed (Writer.Start) rather than predicted; domain-level deletes are only issued on ranges no open writer has committed into (cesium's controller enforces that above this layer); legal commits that the code refuses are counted, not judged.",
    design="3/C03"),
+ "C01": dict(level="model_checking", engine="seqx",
+   technique="explicit-state BFS over write scripts on the real cesium.DB with a timestamp->value reference; full range-read sweep in every distinct state",
+   text="Every write script up to the depth bound over sessions (index+data, index-only, data-only channel sets; start on or 1ns before a sample; chunks of 1-3 samples; commit points; auto-commit on/off; sessions placed before, between and after earlier data; two index groups; reopen) for five configurations (fixed 8-byte, 1-byte and variable-length data types; file-size caps that roll every commit, at different rhythms per channel, or never; immediate and close-time index persistence). In every distinct state every half-open read [a,b) with a,b in {0, t-1ns, t, t+1ns, max} is issued for every channel and must return exactly the committed samples in range, once, in order, byte-for-byte; the same after close and reopen.",
+   note="in-memory xfs.MemFS; go1.26.8 toolchain; script steps the model considers legal but the engine refuses end that path (property speaks of successful writes); wall-clock index persistence covered as its two extremes; series time ranges/alignments are part of the canonical state but not judged.",
+   design="3/C01"),
 }
 NOT_YET = {}
 props = [json.loads(l) for l in open(os.path.join(HERE, "properties.jsonl"))]
